@@ -1162,6 +1162,7 @@ def normalize(modules) -> Report:
     n2.split_tuple_locals(modules, known, rep)
     n2.propagate_fresh_locals(modules, known, rep)
     n2.thread_constant_flags(modules, known, rep)
+    n2.resolve_conditional_joins(modules, known, rep)
     seen = set()
     rep.kept = [k for k in rep.kept if not (k in seen or seen.add(k))]
     return rep
